@@ -40,6 +40,9 @@ EXPLANATION = (
     "R-tr-name-scope -- a bare name resolves as loop variable > known temporary > new temporary (store only); "
     "R-tr-dims-order -- unpacked dimensions are declared outermost array first, the order in which accesses index the name; "
     "R-tr-const-inline -- a back-end that declares no constants inlines or rejects every constant-array access; "
+    "R-tr-ifc-source -- every interface flattener iterates get_all_properties_packed (nested interfaces included); "
+    "R-tr-range -- range(a) / range(a,b) / range(a,b,c) are read as (0,a,1) / (a,b,1) / (a,b,c); "
+    "R-tr-block-state -- the closure table a per-block visitor fills in enter() is created afresh there; "
     "R-layout-agree -- struct literals / concat / struct construction put the first field (argument) most significant and "
     "packed-array element 0 least significant. "
     "NOT decided: cycle-for-cycle behavioural equivalence of arbitrary designs, syntactic validity of arbitrary emitted text "
@@ -56,11 +59,13 @@ ASSUMPTIONS = [
 RULES = [partial(f, backend=BACKEND) for f in (
     T.rule_hooks, T.rule_handlers, T.rule_optable, T.rule_assign, T.rule_slice, T.rule_width_cast, T.rule_conn,
     T.rule_sigexpr, T.rule_for, T.rule_modname, T.rule_constcache, T.rule_layout, T.rule_index_queue, T.rule_dedup_scope,
-    T.rule_loop_state, T.rule_memo_scope, T.rule_ident_intact, T.rule_name_scope, T.rule_dims_order, T.rule_const_inline)]
+    T.rule_loop_state, T.rule_memo_scope, T.rule_ident_intact, T.rule_name_scope, T.rule_dims_order, T.rule_const_inline,
+    T.rule_ifc_source, T.rule_range_args, T.rule_block_state)]
 for _f, _g in zip(RULES, (T.rule_hooks, T.rule_handlers, T.rule_optable, T.rule_assign, T.rule_slice, T.rule_width_cast,
                           T.rule_conn, T.rule_sigexpr, T.rule_for, T.rule_modname, T.rule_constcache, T.rule_layout,
                           T.rule_index_queue, T.rule_dedup_scope, T.rule_loop_state, T.rule_memo_scope, T.rule_ident_intact,
-                          T.rule_name_scope, T.rule_dims_order, T.rule_const_inline)):
+                          T.rule_name_scope, T.rule_dims_order, T.rule_const_inline, T.rule_ifc_source, T.rule_range_args,
+                          T.rule_block_state)):
     _f.__name__ = _g.__name__
 
 
@@ -258,6 +263,34 @@ MUTANTS = [
        'R-tr-dims-order'),
     _m('subcomp-ifc-port-dims-swapped', VS4, "          'unpacked_type' : ifc_array_type['unpacked_type']+port_array_type['unpacked_type'],\n      }]",
        "          'unpacked_type' : port_array_type['unpacked_type']+ifc_array_type['unpacked_type'],\n      }]", 'R-tr-dims-order'),
+    # round-6 kinds: iteration source, dropped range start, per-block state, decimal literal from an object
+    _m('subcomp-ifc-ports-only', T.G_S4, "all_ifc_ports = ifc_port_rtype.get_all_properties_packed()", "all_ifc_ports = ifc_port_rtype.get_all_ports_packed()", 'R-tr-ifc-source'),
+    _m('nested-ifc-ports-only-sv', VS3, "all_properties = port_rtype.get_all_properties_packed()", "all_properties = port_rtype.get_all_ports_packed()", 'R-tr-ifc-source'),
+    _m('range-start-forgotten', GEN2, "      # range( start, end )\n      start = s.visit( args[0] )\n      end = s.visit( args[1] )", "      # range( start, end )\n      start = bir.Number( 0 )\n      end = s.visit( args[1] )",
+       'R-tr-range'),
+    _m('range-step-taken-from-end', GEN2, "      step = s.visit( args[2] )", "      step = s.visit( args[1] )", 'R-tr-range'),
+    dict(name='closure-created-per-component', rule='R-tr-block-state', edits=[
+        dict(file=GEN1, old="    s.component = component\n\n    if sys.version_info", new="    s.component = component\n    s.closure = {}\n\n    if sys.version_info", count=1),
+        dict(file=GEN1, old="    # Basically this is the model instance s.\n    s.closure = {}\n\n    for i, var in enumerate( blk.__code__.co_freevars ):\n      try:\n        s.closure[ var ] = blk.__closure__[ i ].cell_contents\n      except ValueError:\n        pass\n\n    s.const_extractor",
+             new="    # Basically this is the model instance s.\n\n    for i, var in enumerate( blk.__code__.co_freevars ):\n      try:\n        s.closure[ var ] = blk.__closure__[ i ].cell_contents\n      except ValueError:\n        pass\n\n    s.const_extractor", count=1)]),
+    _m('emitter-closure-reset-only-once', VB1, "    s.closure = {}\n\n    for i, var in enumerate( blk.__code__.co_freevars ):", "    if not hasattr( s, 'closure' ):\n      s.closure = {}\n\n    for i, var in enumerate( blk.__code__.co_freevars ):",
+       'R-tr-block-state'),
+    _m('number-literal-from-object', VB1, "    if hasattr( node, \"_value\" ):\n      # value could be larger", "    if hasattr( node, \"_value\" ) and False:\n      # value could be larger", 'R-tr-slice'),
+    # re-introductions of the defects repaired by c03_else_begin / c03_operand_parens_and_sext / c03_bool_literal
+    # (stale on a tree without those repairs)
+    _m('else-begin-counts-ir-statements', VB2, "' begin' if s.count_stmts( node.orelse ) > 1 else ''", "' begin' if len( node.orelse ) > 1 else ''", 'R-tr-assign'),
+    _m('for-end-counts-ir-statements', VB2, "    if s.count_stmts( node.body ) > 1:\n      src.extend( [ 'end' ] )", "    if len( node.body ) > 1:\n      src.extend( [ 'end' ] )", 'R-tr-assign'),
+    _m('reduce-operand-unparenthesised', VB1, "    value = s.visit_expr_wrap( node.value )\n    op = reduce_ops[ op_t ]", "    value = s.visit( node.value )\n    op = reduce_ops[ op_t ]", 'R-tr-optable'),
+    _m('zext-identity-unparenthesised', VB1, "      # The operand itself takes the place of the extension\n      return s.visit_expr_wrap( node.value )\n    else:",
+       "      # The operand itself takes the place of the extension\n      return s.visit( node.value )\n    else:", 'R-tr-slice'),
+    _m('truncate-identity-unparenthesised', VB1, "      # The operand itself takes the place of the truncation\n      return s.visit_expr_wrap( node.value )",
+       "      # The operand itself takes the place of the truncation\n      return s.visit( node.value )", 'R-tr-slice'),
+    _m('sext-of-expression-accepted', VB1, "    if isinstance( node.value, ( bir.BinOp, bir.UnaryOp, bir.IfExp, bir.Compare ) ):\n      # The sign bit",
+       "    if False and isinstance( node.value, ( bir.BinOp, bir.UnaryOp, bir.IfExp, bir.Compare ) ):\n      # The sign bit", 'R-tr-slice'),
+    _m('number-unsized-2', VB1, """return f"{nbits}'d{int(node.value)}\"""", """return f"{int(node.value)}\"""", 'R-tr-width-cast'),
+    _m('number-sized-by-value-2', VB1, "    nbits = node.Type.get_dtype().get_length()\n    return f\"{nbits}'d{int(node.value)}\"",
+       "    nbits = max(1, int(node.value).bit_length())\n    return f\"{nbits}'d{int(node.value)}\"", 'R-tr-width-cast'),
+    _m('number-literal-without-int', VB1, "'d{int(node.value)}", "'d{node.value}", 'R-tr-width-cast'),
     # R-tr-index-queue
     _m('index-base-visited-before-index', VB1, "    idx   = s.visit( node.idx )\n    value = s.visit( node.value )\n    Type = node.value.Type",
        "    value = s.visit( node.value )\n    idx   = s.visit( node.idx )\n    Type  = node.value.Type", 'R-tr-index-queue'),
@@ -305,6 +338,11 @@ MUTANTS = [
 ]
 
 EQUIV = [
+    _m('number-width-via-local-dtype-2', VB1, "    nbits = node.Type.get_dtype().get_length()\n    return f\"{nbits}'d{int(node.value)}\"",
+       "    dt = node.Type.get_dtype()\n    return f\"{dt.get_length()}'d{int(node.value)}\""),
+    _m('range-defaults-assigned-first', GEN2, "    if len( args ) == 1:\n      # range( end )\n      start = bir.Number( 0 )\n      end = s.visit( args[0] )\n      step = bir.Number( 1 )\n",
+       "    start, step = bir.Number( 0 ), bir.Number( 1 )\n    if len( args ) == 1:\n      # range( end )\n      end = s.visit( args[0] )\n"),
+    _m('closure-created-by-dict-call', GEN1, "    s.closure = {}\n\n    for i, var in enumerate( blk.__code__.co_freevars ):", "    s.closure = dict()\n\n    for i, var in enumerate( blk.__code__.co_freevars ):"),
     _m('name-lookup-tests-nested', GEN2, "      if node.id in s.loop_var_env:\n        ret = bir.LoopVar( node.id )\n      elif node.id in s.tmp_var_env:\n        ret = bir.TmpVar( node.id, s._upblk_name )\n",
        "      if node.id in s.loop_var_env:\n        ret = bir.LoopVar( node.id )\n      elif node.id in s.tmp_var_env and node.id not in s.loop_var_env:\n        ret = bir.TmpVar( node.id, s._upblk_name )\n"),
     _m('ifc-dims-as-fstring', VS3, "unpacked_type = array_type['unpacked_type'] + tr['unpacked_type']", "unpacked_type = f\"{array_type['unpacked_type']}{tr['unpacked_type']}\""),
